@@ -308,6 +308,7 @@ fn interp_derive(out: TokenStream2) -> String {
     let mut data_fields: Vec<String> = Vec::new();
     let (mut setters, mut kfrom, mut vfrom, mut upd, mut start): (Vec<String>, Vec<String>, Vec<String>, Vec<String>, Vec<String>) = Default::default();
     let mut fake = false;
+    let mut init: Vec<String> = Vec::new();
     let mut remote_vfrom = String::new();
     for item in &file.items {
         match item {
@@ -349,6 +350,27 @@ fn interp_derive(out: TokenStream2) -> String {
                         let mut t = Vec::new(); flat(f.block.to_token_stream(), &mut t);
                         fake = t.iter().any(|x| x == "match");
                     }
+                } else if tr.starts_with("::mina::TimelineBuilder<") {
+                    // the wiring of every sub-timeline: `t_<n>: SubTimeline::from_keyframes(&args.keyframes, Default::default(),
+                    // |keyframe| keyframe.<m>, args.default_easing.clone())` is recorded as `<n><<m>` (`?…` if an argument differs)
+                    if let Some(f) = find_fn(&im.items, "build") {
+                        let tail = f.block.stmts.iter().rev().find_map(|st| match st { Stmt::Expr(Expr::Struct(es), _) => Some(es.clone()), _ => None });
+                        if let Some(es) = tail {
+                            for fv in &es.fields {
+                                let m = match &fv.member { syn::Member::Named(i) => i.to_string(), _ => "?".into() };
+                                if !m.starts_with("t_") { continue; }
+                                let mut item = format!("?{}", m);
+                                if let Expr::Call(c) = &fv.expr {
+                                    let args: Vec<String> = c.args.iter().map(|a| nospace(&a.to_token_stream().to_string())).collect();
+                                    if nospace(&c.func.to_token_stream().to_string()) == "::mina::SubTimeline::from_keyframes" && args.len() == 4
+                                        && args[0] == "&args.keyframes" && args[1] == "std::default::Default::default()" && args[3] == "args.default_easing.clone()" {
+                                        if let Some(src) = args[2].strip_prefix("|keyframe|keyframe.") { item = format!("{}<{}", &m[2..], src); }
+                                    }
+                                }
+                                init.push(item);
+                            }
+                        }
+                    }
                 } else if tr == "::mina::Timeline" {
                     if let Some(f) = find_fn(&im.items, "update") {
                         let mut t = Vec::new(); flat(f.block.to_token_stream(), &mut t);
@@ -382,8 +404,8 @@ fn interp_derive(out: TokenStream2) -> String {
         }
     }
     if data_fields != anim { anim.push(format!("?data={}", data_fields.join(","))); }
-    format!("derive[target={};remote={};vfromty={};tl={};data={};builder={};vis={};anim={};setters={};kfrom={};vfrom={};upd={};start={};fake={}]",
-        target, remote, remote_vfrom, tl, data, builder, vis, anim.join(","), setters.join(","), kfrom.join(","), vfrom.join(","), upd.join(","), start.join(","), fake as u8)
+    format!("derive[target={};remote={};vfromty={};tl={};data={};builder={};vis={};anim={};setters={};kfrom={};vfrom={};upd={};start={};fake={};init={}]",
+        target, remote, remote_vfrom, tl, data, builder, vis, anim.join(","), setters.join(","), kfrom.join(","), vfrom.join(","), upd.join(","), start.join(","), fake as u8, init.join(","))
 }
 
 fn expand_derive(w: &[&str]) -> String {
@@ -552,7 +574,24 @@ fn generate(suite: &str, seed: u64, n: usize, out: &mut dyn Write) {
                 let types = ["f32", "f64", "u8", "i16", "i32", "u32", "glam~Vec2", "Option<f32>"];
                 let nf = 1 + r.below(6) as usize;
                 let mark_mode = r.below(3);
-                let fields: Vec<String> = (0..nf).map(|k| format!("f{}:{}:{}", k, r.pick(&types), { let m = if mark_mode == 0 { "n" } else if mark_mode == 1 { "a" } else if r.chance(1, 2) { "a" } else { "n" };
+                // field names: mostly f0..f5; sometimes names that collide with what the derive generates (`t_<field>`
+                // members, the `easing` / `timescale` / `boundary_times` / `data` members, the `new` / `values_from` methods)
+                let odd_names = r.chance(1, 5);
+                let name_of = |r: &mut Rng, k: usize| -> String {
+                    if !odd_names { return format!("f{}", k); }
+                    match (k, r.below(3)) {
+                        (0, _) => "x".to_string(),
+                        (1, _) => "t_x".to_string(),
+                        (2, 0) => "t_t_x".to_string(),
+                        (2, _) => "easing".to_string(),
+                        (3, 0) => "timescale".to_string(),
+                        (3, _) => "t_".to_string(),
+                        (4, _) => "boundary_times".to_string(),
+                        _ => "data".to_string(),
+                    }
+                };
+                let same_type = if odd_names && r.chance(1, 2) { Some(r.pick(&types[..6])) } else { None };
+                let fields: Vec<String> = (0..nf).map(|k| format!("{}:{}:{}", name_of(&mut r, k), same_type.unwrap_or_else(|| r.pick(&types)), { let m = if mark_mode == 0 { "n" } else if mark_mode == 1 { "a" } else if r.chance(1, 2) { "a" } else { "n" };
                     if r.chance(1, 4) { if m == "a" { "A" } else { "N" } } else { m } })).collect();
                 writeln!(out, "mderive {} {} {} {} {}", vis, kind, name, attrs.replace("~", "::"), fields.join(" ")).unwrap();
             }
